@@ -13,6 +13,14 @@ CHECKS = {
    text="leap_seconds() is proved equal to the independently written IERS list for ALL integer years and months 1..12 (z3, table loop unrolled over the concrete table, 28 paths); the utc=True / leap_seconds=k construction offset is proved for all civil dates (all years >= -4712, every month, every h:m:s) by symbolic execution of Epoch.__init__/set/_check_values/_compute_jde. The read-back clause, the override in both directions and the Delta-T clauses are finite, completely enumerated ground obligations over exactly the domain the property states (16308 + 2013 + 578 cases) run on the real binary64 code.",
    note="R-mode (floats as exact rationals) in the symbolic obligations; oracle = specs/iers.py (27 effective dates). local=True paths read the wall clock and are external. leap_seconds=0 is documented as 'conversion disabled' and is only required to be consistent in both directions. Four genuine defects were found by these obligations and repaired (known_findings.json: fixed entries).",
    technique="contract-based deductive verification (AST VCs + z3) plus exhaustive ground enumeration of the stated finite domain", ref="DESIGN.md §3 C10"),
+ "C16": dict(category="proof",
+   text="Weekday = floor(JDE+1.5) mod 7, constant over the civil day and equal to the independent day count's weekday; get_doy = JDN difference to 1 January + 1 in both calendars; doy2date inverts it; year() = y + (JDE - JDE(1 Jan))/365|366 with integer part the calendar year; mean sidereal time in [0,1); apparent - mean = dpsi cos(eps)/15: all proved by z3/cvc5 from the AST of the real methods for ALL years >= -4712 (unbounded above) and all day fractions k/2^10..2^20. Additionally every civil date of -4712..6000 (the property's stated exhaustive domain) is enumerated on the real binary64 code (thorough: every year; quick: every 7th year + all boundary years), including the proleptic Gregorian weekday from datetime after 1582 (plus the proved 400-year period).",
+   note="R-mode for the symbolic part. Agreement with the IAU-1982 GMST expression (1e-7 day), the sidereal rate and the size of the equation of the equinoxes with the library's own nutation are bounded stand-ins (seeded grid, reported under coverage.bounded, never counted as proved). Two genuine defects (get_doy, doy2date) were found and repaired.",
+   technique="contract-based deductive verification (AST VCs + z3/cvc5) plus exhaustive ground enumeration; bounded run-time contracts for the float tolerances", ref="DESIGN.md §3 C16"),
+ "C19": dict(category="proof",
+   text="Easter: range 22 March..25 April proved for every integer year in both branches; Julian branch proved Sunday and equal to the tabular Computus for EVERY year (z3); Gregorian branch: periodicity lemma easter(y+5700000)=easter(y) (and the same for the Computus spec and the weekday) proved by z3, plus complete enumeration of the stated domain -4712..10000 (quick) and of one full 5.7-million-year period (thorough) => equality and Sunday for every year. Pesach (years 1..3000) and the Moslem conversions (every date of 1..2500 AH, every civil day 622-07-16..3000-12-31, both directions, round trip) are complete enumerations of the stated finite domains on the real code against independent arithmetic calendars: 1.77 million ground obligations.",
+   note="Oracles in /verif/specs (Knuth Computus, Dershowitz-Reingold Hebrew arithmetic anchored on ten published Pesach dates, tabular Islamic calendar epoch JDN 1948440). Seven genuine defects found and repaired (known_findings.json).",
+   technique="contract-based deductive verification (AST VCs + z3: range, Julian Computus, periodicity lemma) + exhaustive ground enumeration of the stated finite domains", ref="DESIGN.md §3 C19"),
 }
 NA_REASON = "check not built yet (work in progress; DESIGN.md has the plan)"
 
